@@ -23,5 +23,9 @@ func init() {
 			Old:    "\t\t\t\tif ok && known.OutputIndex >= 0 {\n\t\t\t\t\tcontinue\n\t\t\t\t}\n",
 			New:    "\t\t\t\t_, _ = known, ok\n",
 			Expect: "confirmed-commitment-dust-is-failed-back-once"},
+		{Name: "confirmed-fail-back-only-for-chain-triggers", File: "contractcourt/channel_arbitrator.go",
+			Old:    "\t\t\terr := c.abandonForwards(\n\t\t\t\tremoteDangling.Union(confirmedDust),\n\t\t\t)\n\t\t\tif err != nil {\n\t\t\t\treturn StateError, closeTx, err\n\t\t\t}\n",
+			New:    "\t\t\tif trigger == chainTrigger {\n\t\t\t\terr := c.abandonForwards(\n\t\t\t\t\tremoteDangling.Union(confirmedDust),\n\t\t\t\t)\n\t\t\t\tif err != nil {\n\t\t\t\t\treturn StateError, closeTx, err\n\t\t\t\t}\n\t\t\t}\n",
+			Expect: "fail-back-sites-depend-only-on-their-action-set"},
 	}...)
 }
